@@ -208,6 +208,11 @@ func init() {
 				}
 				return &scriptConn{dlc: dlc}, nil
 			}
+			if a[4] == "wrap" {
+				// Dialer.WrapConn: the connection handed back must be the wrapped one, with or
+				// without the debug wrapper around the dialer
+				d.WrapConn = func(c net.Conn) net.Conn { return &tagConn{c} }
+			}
 			var conn net.Conn
 			var br interface{ Read([]byte) (int, error) }
 			var hs ws.Handshake
@@ -242,6 +247,9 @@ func init() {
 				}
 				all, _ := io.ReadAll(rd)
 				rest = hx(all)
+				if _, tagged := conn.(*tagConn); a[4] == "wrap" && !tagged {
+					rest = "UNWRAPPED:" + rest
+				}
 			}
 			out := fmt.Sprintf("%s proto=%s exts=%s rest=%s", hsErrClass2(err), hx([]byte(hs.Protocol)), optsStr(hs.Extensions), rest)
 			return out, hx(gotReq) + "/" + hx(dlc.w.Bytes()), hx(gotResp), rc, pc
@@ -260,6 +268,9 @@ func init() {
 	}
 	register("C11", genC11)
 }
+
+// tagConn is a pass-through Dialer.WrapConn wrapper recognisable by its type.
+type tagConn struct{ net.Conn }
 
 func genC11(tier string, r *rng) {
 	rand.Seed(int64(r.next() >> 1))
@@ -370,6 +381,7 @@ func genC11(tier string, r *rng) {
 			for _, k := range []int{0, 1, 16} {
 				run(fmt.Sprintf("dbgdl %s %s %s %d ok", dc, hx([]byte("ws://example.com/x")), hx(rs), k))
 			}
+			run(fmt.Sprintf("dbgdl %s %s %s 0 wrap", dc, hx([]byte("ws://example.com/x")), hx(rs)))
 		}
 	}
 	run(fmt.Sprintf("dbgdl - %s %s 0 dialfail", hx([]byte("ws://example.com/x")), hx(resps[0])))
